@@ -313,21 +313,23 @@ def binRange (h : Hist α) : Option (List (Int × Nat)) :=
     some ((List.range k).map (fun (j : Nat) => (h.cmin + (j : Int), h.obs.getD (h.cmin + (j : Int)).toNat 0)))
   else none
 
+/-- one bin of `wei_binned_func()`'s loop; `none` = the `tmp <= 0 → return eslINFINITY` exit taken -/
+def weiBinnedStep (h : Hist α) (mu lambda tau : α) (acc : Option α) (ic : Int × Nat) : Option α :=
+  match acc with
+  | none => none
+  | some logL =>
+    if ic.2 == 0 then some logL else
+    let ai := h.lbound ic.1
+    let bi := h.ubound ic.1
+    let ai := if ltb ai mu then mu else ai
+    let tmp := weiCdf bi mu lambda tau - weiCdf ai mu lambda tau
+    if leb tmp zero then none else some (logL + ofInt ic.2 * log tmp)
+
 /-- `wei_binned_func()` -/
 def weiBinnedFunc (h : Hist α) (bins : List (Int × Nat)) (mu : α) (p : Array α) : α :=
   let lambda := exp (p.getD 0 zero)
   let tau := exp (p.getD 1 zero)
-  let r := bins.foldl (fun (acc : Option α) (ic : Int × Nat) =>
-    match acc with
-    | none => none
-    | some logL =>
-      if ic.2 == 0 then some logL else
-      let ai := h.lbound ic.1
-      let bi := h.ubound ic.1
-      let ai := if ltb ai mu then mu else ai
-      let tmp := weiCdf bi mu lambda tau - weiCdf ai mu lambda tau
-      if leb tmp zero then none else some (logL + ofInt ic.2 * log tmp)) (some zero)
-  match r with
+  match bins.foldl (weiBinnedStep h mu lambda tau) (some zero) with
   | none => one / zero
   | some logL => Neg.neg logL
 
